@@ -10,6 +10,8 @@ import (
 	"fmt"
 	"hash/fnv"
 	"strings"
+	"sync/atomic"
+	"time"
 
 	"github.com/jamf/regatta/regattapb"
 	"github.com/jamf/regatta/storage/table"
@@ -18,6 +20,7 @@ import (
 	sm "github.com/lni/dragonboat/v4/statemachine"
 
 	. "verif/harness/cmdx"
+	"verif/harness/engx"
 	"verif/harness/evid"
 	"verif/harness/fsmx"
 	"verif/harness/par"
@@ -144,67 +147,7 @@ func mk(c Case, reuse []*fsmx.Inst, base uint64) (sched.Scenario, *world) {
 				t.Point(fmt.Sprintf("c%d.%d:%s.invoke", ci, k, opName[op]))
 				rec.ci = w.c.Commit()
 				val := fmt.Sprintf("c%d.%d", ci, k)
-				switch op {
-				case opPut:
-					r, err := at.Put(ctx, &regattapb.PutRequest{Table: Table, Key: B("a"), Value: B(val), PrevKv: true})
-					rec.err, rec.mut = err, true
-					if err == nil {
-						rec.rev = r.Header.GetRevision()
-						rec.resp = fsmx.RespStr(&regattapb.ResponseOp{Response: &regattapb.ResponseOp_ResponsePut{ResponsePut: &regattapb.ResponseOp_Put{PrevKv: r.PrevKv}}})
-					}
-				case opDelRange:
-					r, err := at.Delete(ctx, &regattapb.DeleteRangeRequest{Table: Table, Key: B("a"), RangeEnd: wild, PrevKv: true, Count: true})
-					rec.err, rec.mut = err, true
-					if err == nil {
-						rec.rev = r.Header.GetRevision()
-						rec.resp = fsmx.RespStr(&regattapb.ResponseOp{Response: &regattapb.ResponseOp_ResponseDeleteRange{ResponseDeleteRange: &regattapb.ResponseOp_DeleteRange{Deleted: r.Deleted, PrevKvs: r.PrevKvs}}})
-					}
-				case opTxnWrite:
-					r, err := at.Txn(ctx, &regattapb.TxnRequest{Table: Table, Compare: Cmps(Exists("a", nil)), Success: Ops(OpPut("b", val, true), OpGet("a", wild, 0, false, false)), Failure: Ops(OpPut("a", val, false))})
-					rec.err, rec.mut = err, true
-					if err == nil {
-						rec.rev = r.Header.GetRevision()
-						rec.resp = fmt.Sprintf("succeeded=%v %s", r.Succeeded, fsmx.RespsStr(r.Responses))
-					}
-				case opTxnEmptyBranch:
-					r, err := at.Txn(ctx, &regattapb.TxnRequest{Table: Table, Compare: Cmps(Exists("zz", nil)), Success: Ops(OpPut("a", val, false))})
-					rec.err, rec.mut = err, true
-					if err == nil {
-						rec.rev = r.Header.GetRevision()
-						rec.resp = fmt.Sprintf("succeeded=%v %s", r.Succeeded, fsmx.RespsStr(r.Responses))
-					}
-				case opTxnReadonly:
-					r, err := at.Txn(ctx, &regattapb.TxnRequest{Table: Table, Compare: Cmps(Exists("a", nil)), Success: Ops(OpGet("a", wild, 0, false, false)), Failure: Ops(OpGet("b", nil, 0, false, false))})
-					rec.err = err
-					if err == nil {
-						rec.resp = fmt.Sprintf("succeeded=%v %s", r.Succeeded, fsmx.RespsStr(r.Responses))
-					}
-				case opTxnReadonlyNoCmp:
-					r, err := at.Txn(ctx, &regattapb.TxnRequest{Table: Table, Success: Ops(OpGet("a", wild, 0, false, false))})
-					rec.err = err
-					if err == nil {
-						rec.resp = fmt.Sprintf("succeeded=%v %s", r.Succeeded, fsmx.RespsStr(r.Responses))
-					}
-				case opRangeLin, opRangeSer:
-					r, err := at.Range(ctx, &regattapb.RangeRequest{Table: Table, Key: B("a"), RangeEnd: wild, Linearizable: op == opRangeLin})
-					rec.err = err
-					if err == nil {
-						rec.resp = rangeStr(r.Kvs, r.Count, r.More)
-					}
-				case opIterLin, opIterSer:
-					seq, err := at.Iterator(ctx, &regattapb.RangeRequest{Table: Table, Key: B("a"), RangeEnd: wild, Linearizable: op == opIterLin})
-					rec.err = err
-					if err == nil {
-						t.Point(fmt.Sprintf("c%d.%d:first-pull", ci, k))
-						var kvs []*regattapb.KeyValue
-						var cnt int64
-						iter.Consume(seq, func(r *regattapb.ResponseOp_Range) {
-							kvs = append(kvs, r.Kvs...)
-							cnt += r.Count
-						})
-						rec.resp = rangeStr(kvs, cnt, false)
-					}
-				}
+				rec.resp, rec.rev, rec.mut, rec.err = doOp(&at, ctx, op, val, func() { t.Point(fmt.Sprintf("c%d.%d:first-pull", ci, k)) })
 				rec.idx = host.LastIndex()
 				t.Point(fmt.Sprintf("c%d.%d:%s.return", ci, k, opName[op]))
 				rec.cr = w.c.Commit()
@@ -430,8 +373,9 @@ func Run(r *evid.Run) {
 	if done < int64(len(cases)) {
 		r.Cap(fmt.Sprintf("deadline: %d of %d scenarios", done, len(cases)))
 	}
+	runConformance(r)
 	r.Sample(map[string]any{"scenario": []map[string]any{{"client": "A", "node": 1, "ops": []string{"put", "range(linearizable)"}}, {"client": "B", "node": 0, "ops": []string{"txn(empty-taken-branch)"}}}})
-	r.Assume("simulated Raft host = dragonboat's documented contract (append = commit; proposal answered from the proposing replica after it applied the index; SyncRead waits for the commit index captured at invocation; StaleRead reads the local replica as is); conformance traces on a real NodeHost are part of the engine-based checks (traces_validated_against_impl counts them, 0 when only the simulated host ran)")
+	r.Assume("simulated Raft host = dragonboat's documented contract (append = commit; proposal answered from the proposing replica after it applied the index; SyncRead waits for the commit index captured at invocation; StaleRead reads the local replica as is); conformance: every client program of length <= 2 (thorough 3) is replayed single-node/no-lag through the simulated host and through a real dragonboat NodeHost running the same state machine and every response and revision step is compared (traces_validated_against_impl counts these traces)")
 	r.Assume("node 0 applies every entry at commit time, node 1 applies when the scheduler lets it, in batches of 1 or all pending")
 }
 
@@ -454,4 +398,157 @@ func Replay(raw json.RawMessage) (string, bool) {
 		fmt.Fprintf(&sb, "%s: %s\n", v.sig, v.detail)
 	}
 	return sb.String(), len(vs) == 0
+}
+
+// doOp performs one client operation through an ActiveTable (over the simulated or a real host) and
+// renders its response canonically.
+func doOp(at *table.ActiveTable, ctx context.Context, op int, val string, beforePull func()) (resp string, rev uint64, mut bool, err error) {
+	switch op {
+	case opPut:
+		r, e := at.Put(ctx, &regattapb.PutRequest{Table: Table, Key: B("a"), Value: B(val), PrevKv: true})
+		err, mut = e, true
+		if e == nil {
+			rev = r.Header.GetRevision()
+			resp = fsmx.RespStr(&regattapb.ResponseOp{Response: &regattapb.ResponseOp_ResponsePut{ResponsePut: &regattapb.ResponseOp_Put{PrevKv: r.PrevKv}}})
+		}
+	case opDelRange:
+		r, e := at.Delete(ctx, &regattapb.DeleteRangeRequest{Table: Table, Key: B("a"), RangeEnd: wild, PrevKv: true, Count: true})
+		err, mut = e, true
+		if e == nil {
+			rev = r.Header.GetRevision()
+			resp = fsmx.RespStr(&regattapb.ResponseOp{Response: &regattapb.ResponseOp_ResponseDeleteRange{ResponseDeleteRange: &regattapb.ResponseOp_DeleteRange{Deleted: r.Deleted, PrevKvs: r.PrevKvs}}})
+		}
+	case opTxnWrite:
+		r, e := at.Txn(ctx, &regattapb.TxnRequest{Table: Table, Compare: Cmps(Exists("a", nil)), Success: Ops(OpPut("b", val, true), OpGet("a", wild, 0, false, false)), Failure: Ops(OpPut("a", val, false))})
+		err, mut = e, true
+		if e == nil {
+			rev = r.Header.GetRevision()
+			resp = fmt.Sprintf("succeeded=%v %s", r.Succeeded, fsmx.RespsStr(r.Responses))
+		}
+	case opTxnEmptyBranch:
+		r, e := at.Txn(ctx, &regattapb.TxnRequest{Table: Table, Compare: Cmps(Exists("zz", nil)), Success: Ops(OpPut("a", val, false))})
+		err, mut = e, true
+		if e == nil {
+			rev = r.Header.GetRevision()
+			resp = fmt.Sprintf("succeeded=%v %s", r.Succeeded, fsmx.RespsStr(r.Responses))
+		}
+	case opTxnReadonly:
+		r, e := at.Txn(ctx, &regattapb.TxnRequest{Table: Table, Compare: Cmps(Exists("a", nil)), Success: Ops(OpGet("a", wild, 0, false, false)), Failure: Ops(OpGet("b", nil, 0, false, false))})
+		err = e
+		if e == nil {
+			resp = fmt.Sprintf("succeeded=%v %s", r.Succeeded, fsmx.RespsStr(r.Responses))
+		}
+	case opTxnReadonlyNoCmp:
+		r, e := at.Txn(ctx, &regattapb.TxnRequest{Table: Table, Success: Ops(OpGet("a", wild, 0, false, false))})
+		err = e
+		if e == nil {
+			resp = fmt.Sprintf("succeeded=%v %s", r.Succeeded, fsmx.RespsStr(r.Responses))
+		}
+	case opRangeLin, opRangeSer:
+		r, e := at.Range(ctx, &regattapb.RangeRequest{Table: Table, Key: B("a"), RangeEnd: wild, Linearizable: op == opRangeLin})
+		err = e
+		if e == nil {
+			resp = rangeStr(r.Kvs, r.Count, r.More)
+		}
+	case opIterLin, opIterSer:
+		seq, e := at.Iterator(ctx, &regattapb.RangeRequest{Table: Table, Key: B("a"), RangeEnd: wild, Linearizable: op == opIterLin})
+		err = e
+		if e == nil {
+			if beforePull != nil {
+				beforePull()
+			}
+			var kvs []*regattapb.KeyValue
+			var cnt int64
+			iter.Consume(seq, func(r *regattapb.ResponseOp_Range) {
+				kvs = append(kvs, r.Kvs...)
+				cnt += r.Count
+			})
+			resp = rangeStr(kvs, cnt, false)
+		}
+	}
+	return
+}
+
+// runConformance replays single-node, no-lag traces of the simulated Raft host against a real
+// dragonboat NodeHost running the same state machine and compares every response (revisions as
+// differences: the real log starts with Raft's own entries).
+func runConformance(r *evid.Run) {
+	eng, err := engx.Start(engx.Opts{})
+	if err != nil {
+		r.Inconcl.Add(1)
+		r.Extra("conformance", "engine did not start: "+err.Error())
+		return
+	}
+	defer eng.Close()
+	depth := 2
+	if r.Thorough() {
+		depth = 3
+	}
+	seqs := programs(depth)
+	var n atomic.Int64
+	old := par.Workers
+	par.Workers = 8
+	defer func() { par.Workers = old }()
+	par.For(int64(len(seqs)), r.Expired, func(i int64) {
+		ops := seqs[i]
+		// simulated side
+		env := fsmx.NewEnv()
+		inst, _, err := env.Open("t", 10001, fsm.RecoveryTypeSnapshot)
+		if err != nil {
+			return
+		}
+		defer inst.Close()
+		c := simraft.NewCluster(10001, inst)
+		sat := table.Table{Name: "t", ClusterID: 10001}.AsActive(simraft.NewHost(c.Nodes[0], nil))
+		// real side: the table must be called "t" for the requests; one engine table per trace is too
+		// slow to create under the same name, so the real table has its own name and requests carry it
+		name := fmt.Sprintf("conf%d", n.Add(1))
+		var cerr error
+		for k := 0; k < 50; k++ {
+			if _, cerr = eng.CreateTable(name); cerr == nil || !strings.Contains(cerr.Error(), "version mismatch") {
+				break
+			}
+			time.Sleep(2 * time.Millisecond)
+		}
+		if cerr != nil || eng.WaitTable(name, 20*time.Second) != nil {
+			r.Inconcl.Add(1)
+			return
+		}
+		rat, err := eng.GetTable(name)
+		if err != nil {
+			r.Inconcl.Add(1)
+			return
+		}
+		var sPrev, rPrev uint64
+		for k, op := range ops {
+			val := fmt.Sprintf("v%d", k)
+			ctx, cancel := context.WithTimeout(context.Background(), 20*time.Second)
+			sresp, srev, mut, serr := doOp(&sat, ctx, op, val, nil)
+			rresp, rrev, _, rerr := doOp(&rat, ctx, op, val, nil)
+			cancel()
+			if rerr != nil && (strings.Contains(rerr.Error(), "timeout") || strings.Contains(rerr.Error(), "deadline")) {
+				r.Inconcl.Add(1)
+				return
+			}
+			if (serr == nil) != (rerr == nil) || sresp != rresp {
+				r.Violate("conformance/simulated-host-and-real-nodehost-disagree/"+opName[op], fmt.Sprintf("trace %v step %d: simulated %q err %v, real %q err %v", ops, k, sresp, serr, rresp, rerr), map[string]any{"kind": "conformance", "ops": ops})
+				return
+			}
+			if mut && serr == nil {
+				if sPrev != 0 && srev-sPrev != rrev-rPrev {
+					r.Violate("conformance/revision-steps-differ", fmt.Sprintf("trace %v step %d: simulated %d->%d, real %d->%d", ops, k, sPrev, srev, rPrev, rrev), map[string]any{"kind": "conformance", "ops": ops})
+				}
+				if rrev == 0 {
+					r.Violate("conformance/real-revision-zero/"+opName[op], fmt.Sprintf("trace %v step %d", ops, k), map[string]any{"kind": "conformance", "ops": ops})
+				}
+				sPrev, rPrev = srev, rrev
+			}
+		}
+		r.Validated.Add(1)
+		_ = eng.DeleteTable(name)
+		if i%64 == 63 {
+			_ = eng.Manager.VerifReconcile()
+		}
+	})
+	r.Extra("conformance_traces_compared_with_real_nodehost", r.Validated.Load())
 }
